@@ -89,13 +89,16 @@ bool compareGeo(const ShapeGeo& a, const ShapeGeo& b, const std::string& what, c
 			if (std::fabs(a.uvs[i].u - b.uvs[i].u) > tu || std::fabs(a.uvs[i].v - b.uvs[i].v) > tv) return V("uvs", fmt("uv %zu (%g,%g) became (%g,%g)", i, a.uvs[i].u, a.uvs[i].v, b.uvs[i].u, b.uvs[i].v));
 		}
 	}
+	const bool clampColors = true;   // every comparison of this monitor has a byte-storage (SE) side
 	if (a.hasColors && !a.colors.empty()) {
 		bool allWhite = true;
 		for (auto& c : a.colors) if (!(c.r == 1 && c.g == 1 && c.b == 1 && c.a == 1)) allWhite = false;
 		if (!b.hasColors || b.colors.size() != a.colors.size()) { if (!(allWhite && parallaxOrColorRemovalAllowed)) return V("colors-lost", "vertex colours missing after conversion although they are not all white"); }
 		else
 			for (size_t i = 0; i < a.colors.size(); i++) {
-				float d = std::max({std::fabs(a.colors[i].r - b.colors[i].r), std::fabs(a.colors[i].g - b.colors[i].g), std::fabs(a.colors[i].b - b.colors[i].b), std::fabs(a.colors[i].a - b.colors[i].a)});
+				// byte storage (SE) clamps to [0,1]; float storage (LE) keeps what it is given
+				auto cl = [&](float x) { return clampColors ? std::min(1.0f, std::max(0.0f, x)) : x; };
+				float d = std::max({std::fabs(cl(a.colors[i].r) - cl(b.colors[i].r)), std::fabs(cl(a.colors[i].g) - cl(b.colors[i].g)), std::fabs(cl(a.colors[i].b) - cl(b.colors[i].b)), std::fabs(cl(a.colors[i].a) - cl(b.colors[i].a))});
 				if (d > 1.0f / 255.0f + 1e-5f) return V("colors", fmt("colour %zu off by %g", i, d));
 			}
 	}
@@ -275,6 +278,7 @@ void run(size_t idx) {
 		ao.version = idx % 2 ? "SSE" : "SK";
 		ao.skinned = idx % 4 == 3 ? 0 : 1;
 		ao.colors = idx % 3 == 0;
+		ao.wideColors = idx % 6 == 0;
 		ao.partitions = idx % 5 == 0;
 		ao.maxInfluences = 1 + (int)(idx % 6);
 		// an SSE file carries the weights twice (NiSkinData and BSTriShape vertex data): keep the two views consistent (<= 4 influences)
